@@ -148,7 +148,7 @@ func fieldName(t types.Type, i int) string {
 func calleeName(c *ssa.CallCommon) string {
 	if c.IsInvoke() {
 		recv := c.Value.Type()
-		return "iface:" + types.TypeString(recv, nil) + "." + c.Method.Name()
+		return "iface:" + tstr(recv, nil) + "." + c.Method.Name()
 	}
 	switch f := c.Value.(type) {
 	case *ssa.Function:
@@ -156,9 +156,9 @@ func calleeName(c *ssa.CallCommon) string {
 			return aliasFull(a)
 		}
 		if o := f.Origin(); o != nil {
-			return o.String() // generic instantiation: name of the generic function
+			return unaliasTypes(o.String()) // generic instantiation: name of the generic function
 		}
-		return f.String()
+		return unaliasTypes(f.String())
 	case *ssa.Builtin:
 		return "builtin:" + f.Name()
 	case *ssa.MakeClosure:
@@ -167,7 +167,7 @@ func calleeName(c *ssa.CallCommon) string {
 				return aliasFull(a)
 			}
 		}
-		return f.Fn.String()
+		return unaliasTypes(f.Fn.String())
 	}
 	return "dynamic"
 }
@@ -326,7 +326,7 @@ func (c *Canon) s(v ssa.Value) string {
 	case *ssa.Call:
 		return c.call(x.Common(), x)
 	case *ssa.Convert:
-		return types.TypeString(x.Type(), qual) + "(" + c.S(x.X) + ")"
+		return tstr(x.Type(), qual) + "(" + c.S(x.X) + ")"
 	case *ssa.ChangeType:
 		return c.S(x.X)
 	case *ssa.MakeInterface:
@@ -334,7 +334,7 @@ func (c *Canon) s(v ssa.Value) string {
 	case *ssa.ChangeInterface:
 		return c.S(x.X)
 	case *ssa.TypeAssert:
-		return c.S(x.X) + ".(" + types.TypeString(x.AssertedType, qual) + ")"
+		return c.S(x.X) + ".(" + tstr(x.AssertedType, qual) + ")"
 	case *ssa.Slice:
 		lo, hi := "", ""
 		if x.Low != nil {
